@@ -141,6 +141,13 @@ def judge(ctx, prop, base, c, cmds, results, trace, step, post_oracle=None):
     """oracles after one schedule on clone `c` (base = the common pre-state); returns True if a violation was reported"""
     pre = base.log_bytes()
     data = c.log_bytes()
+    if pre and not pre.endswith(b"\n"):
+        # the common pre-state ends in the fragment of a killed writer: the first command that writes drops it (the fragments used are never whole
+        # events); if nobody wrote, it is still there and the log is otherwise untouched
+        if data == pre:
+            data = pre = pre[:pre.rfind(b"\n") + 1]
+        else:
+            pre = pre[:pre.rfind(b"\n") + 1]
     bad = lines_problem(data)
     g = c.graph()
     if bad or "err" in g:
@@ -286,8 +293,17 @@ def replay(ctx, doc, post_oracle=None):
         base.close()
 
 
-def explore(ctx, prop, r, kindsA=None, kindsB=None, points="all", b_modes=("complete", "hold"), max_points=4, state_cmds=10, big=0, post_oracle=None, weights=None, legacy=False, env_extra=None):
-    base, v, trace = crash.build_state(ctx, r, state_cmds + r.n(8), big=big, legacy=legacy, **({"weights": weights} if weights else {}))
+def explore(ctx, prop, r, kindsA=None, kindsB=None, points="all", b_modes=("complete", "hold"), max_points=4, state_cmds=10, big=0, post_oracle=None, weights=None, legacy=False, env_extra=None,
+            torn=False, missing_lock=False):
+    """torn: the log ends in the fragment of a killed writer (the first writer repairs it); missing_lock: `.ergo/lock` is not there (a fresh
+    checkout, a cleaned tree: it is not state and is re-created on demand) — whoever re-creates it, there is still one lock"""
+    base, v, trace = crash.build_state(ctx, r, state_cmds + r.n(8), big=big, legacy=legacy, torn=torn, **({"weights": weights} if weights else {}))
+    if missing_lock:
+        try:
+            os.unlink(os.path.join(base.dir, "lock"))
+            trace = trace + [{"edit": ".ergo/lock removed"}]
+        except OSError:
+            pass
     try:
         shared = {}
         reqA, agA, labA = marked(r, v, 0, kindsA, shared)
